@@ -106,12 +106,21 @@ def run_special(job):
         cfg = python.Config(innovation_filtering=job.get("k"), max_dt_sec=0.2, common_subexpression_elimination=True)
         est = python.SklearnEKFAdapter.Create(model, pn, sensors, sn, cm, config=cfg)
         X = np.array(job["X"], dtype=float)
-        T1 = est.transform(X)
+
+        def tr():
+            # a random non-linear definition may overflow over the rows of X (the filter then refuses its own covariance):
+            # such a history is outside the property, but it must behave the same way under both settings
+            try:
+                with np.errstate(all="ignore"):
+                    return [[float(v) for v in row] for row in est.transform(X)], None
+            except (AssertionError, FloatingPointError, OverflowError, ZeroDivisionError, np.linalg.LinAlgError) as e:
+                return [], type(e).__name__
+        T1, e1 = tr()
         before = snapshot(est, None)
         est.set_params(common_subexpression_elimination=False)
         after = snapshot(est, None)
-        T2 = est.transform(X)
-        out = {"T_on": [[float(v) for v in row] for row in T1], "T_off": [[float(v) for v in row] for row in T2], "before": before, "after": after}
+        T2, e2 = tr()
+        out = {"T_on": T1, "T_off": T2, "err_on": e1, "err_off": e2, "before": before, "after": after}
     return out
 
 
